@@ -323,7 +323,7 @@ func window(w *vt.Writer, rng *rand.Rand, n int) int {
 		dsec := []int{10, 7, 60, 3}[rng.Intn(4)]
 		D := time.Duration(dsec) * time.Second
 		W := []time.Duration{2 * time.Second, 6 * time.Second, 30 * time.Second, time.Second, 500 * time.Millisecond,
-			3 * time.Microsecond, 0, 5 * time.Minute}[rng.Intn(8)]
+			4 * time.Microsecond, 0, 5 * time.Minute}[rng.Intn(8)]
 		base := time.Unix(int64((1_700_000_000/dsec+rng.Intn(1000))*dsec), 0) // start of an epoch
 		p := &drkeyutil.FakeProvider{EpochDuration: D, AcceptanceWindow: W}
 		w.Emit(vt.M{"ev": "reset", "part": "window", "id": i, "d": us(D), "w": us(W), "g": us(drkey.GRACE_PERIOD)})
@@ -353,6 +353,10 @@ func window(w *vt.Writer, rng *rand.Rand, n int) int {
 			}
 			if ts < 0 {
 				ts = 0
+			}
+			// the trace carries whole microseconds: everything handed to the code must be exact
+			if now%time.Microsecond != 0 || ts%time.Microsecond != 0 || (W/2)%time.Microsecond != 0 {
+				vt.Fatal("window grid is not in whole microseconds: now=%v ts=%v w=%v", now, ts, W)
 			}
 			k, err := p.GetKeyWithinAcceptanceWindow(base.Add(now), uint64(ts), addr.MustParseIA("1-ff00:0:110"),
 				addr.MustParseHost("10.0.0.1"))
